@@ -1,4 +1,4 @@
 From Coq Require Import Extraction ExtrOcamlBasic ZArith List.
-From LP Require Import Num C16_Model.
+From LP Require Import Num C16_Model C16_Model2.
 Extraction Language OCaml.
-Extraction "C16_m.ml" vdot dot vnorm vnormalized cross mmul mvec rotation_matrix spherical spherical_axis angle vstep_apply vhistory mstep_apply mhistory vecm rotation_of_object spherical_of_object call_answer calls_run midentity angle_sum rot_chain mtrace mdet rot_chain_det_trace rotation_det_trace  Z.of_nat Z.to_nat.
+Extraction "C16_m.ml" vdot dot vnorm vnormalized cross mmul mvec rotation_matrix spherical spherical_axis angle vstep_apply vhistory mstep_apply mhistory vecm rotation_of_object spherical_of_object call_answer calls_run midentity angle_sum rot_chain mtrace mdet rot_chain_det_trace rotation_det_trace mtranspose msquare minvertible minverse meqb morthogonal mnorm rotation_inverse  Z.of_nat Z.to_nat.
